@@ -1293,3 +1293,357 @@ def _names_live(names, data):
     finally:
         db.disconnect()
     return fails
+
+
+# =====================================================================================================================
+# (a) over histories: statements that Pony caches by shape (Database.insert, entity INSERT / UPDATE / DELETE / get / exists)
+# =====================================================================================================================
+# case = {'kind': 'history', 'dialect', 'ops': [...]}; one fresh Database per case (the statement caches start empty).
+#   ['insert', returning, [[col, enc], ...]]          db.insert('raw t', **kwargs in that order)  (returning: None | 'id')
+#   ['new', [[attr, enc], ...]]                        P(**kwargs in that order)  (must contain id)
+#   ['set', k, [read attrs], [[attr, enc], ...], how]  k-th existing P object (modulo): read some attributes, then
+#                                                      obj.set(**kwargs in that order) (how == 'set') or assignments in that order
+#   ['get' | 'exists', [[attr, enc], ...]]             P.get(**kwargs) / P.exists(**kwargs)
+#   ['delete', k, [read attrs]]
+# Oracle: a reference model kept in plain dicts.  On SQLite every operation runs in its own db_session and the tables are read
+# back through the raw connection after it; on every dialect the INSERT / UPDATE / DELETE / SELECT statement of the operation is
+# decomposed into (column, operand) pairs with the dialect lexer and each operand must denote the value supplied for THAT column.
+
+HIST_COLS = {'id': 'i d', 'name': "na'me", 'note': 'no te', 'tag': 'tag', 'n': 'n'}          # P attribute -> column
+HIST_P_TABLE, HIST_R_TABLE = 'per son', 'raw t'
+HIST_P_DEFAULT = {'name': '', 'note': '', 'tag': None, 'n': None}
+HIST_R_COLS = ['id', 'name', 'note', 'tag', 'n']
+
+
+def history_db(dialect, log):
+    from pony.orm import Database, PrimaryKey, Optional
+    db = Database()
+
+    class P(db.Entity):
+        _table_ = HIST_P_TABLE
+        id = PrimaryKey(int, column=HIST_COLS['id'])
+        name = Optional(str, column=HIST_COLS['name'], autostrip=False)
+        note = Optional(str, column=HIST_COLS['note'], autostrip=False)
+        tag = Optional(str, column=HIST_COLS['tag'], autostrip=False, nullable=True)
+        n = Optional(int, column=HIST_COLS['n'])
+
+    class R(db.Entity):
+        _table_ = HIST_R_TABLE
+        id = PrimaryKey(int)
+        name = Optional(str, nullable=True)
+        note = Optional(str, nullable=True)
+        tag = Optional(str, nullable=True)
+        n = Optional(int)
+    bind_db(db, dialect, log)
+    db.generate_mapping(create_tables=(dialect == 'sqlite'), check_tables=False)
+    return db, P, R
+
+
+def _pairs(dialect, toks):
+    """(column name, Unit) for every `<quoted column> = <literal or placeholder>` and `<quoted column> IS NULL` of a statement,
+    plus the pairs of an INSERT's column list and VALUES list"""
+    us = L.units(dialect, toks)
+    by_start = {u.start: u for u in us}
+    out = []
+    for i, t in enumerate(toks):
+        if t.kind == 'op' and t.text == '=' and i > 0 and toks[i - 1].kind == 'ident' and (i + 1) in by_start:
+            out.append((toks[i - 1].value, by_start[i + 1]))
+        elif t.kind == 'word' and t.text == 'IS' and i > 0 and toks[i - 1].kind == 'ident' and i + 1 < len(toks) \
+                and toks[i + 1].kind == 'word' and toks[i + 1].text == 'NULL':
+            out.append((toks[i - 1].value, by_start[i + 1]))
+    return out
+
+
+def _insert_pairs(dialect, toks):
+    """INSERT INTO <table> (c1, c2, ...) VALUES (o1, o2, ...) [RETURNING ...] -> [(column, Unit)] or a string (why not)"""
+    try:
+        a = next(i for i, t in enumerate(toks) if t.kind == 'op' and t.text == '(')
+        b = next(i for i, t in enumerate(toks) if i > a and t.kind == 'op' and t.text == ')')
+        v = next(i for i, t in enumerate(toks) if i > b and t.kind == 'word' and t.text == 'VALUES')
+        c = v + 1
+        d = next(i for i, t in enumerate(toks) if i > c and t.kind == 'op' and t.text == ')')
+    except StopIteration:
+        return 'not of the form INSERT INTO t (columns) VALUES (operands)'
+    if toks[c].kind != 'op' or toks[c].text != '(':
+        return 'VALUES is not followed by ('
+    cols = [t.value for t in toks[a + 1:b] if t.kind == 'ident']
+    if len(cols) != sum(1 for t in toks[a + 1:b] if not (t.kind == 'op' and t.text == ',')):
+        return 'the column list holds something else than quoted names'
+    us = L.units(dialect, toks[c + 1:d])
+    if len(us) != len(cols):
+        return '%d columns but %d operands' % (len(cols), len(us))
+    return list(zip(cols, us))
+
+
+def _hist_where(toks):
+    k = next((i for i, t in enumerate(toks) if t.kind == 'word' and t.text == 'WHERE'), None)
+    return [] if k is None else toks[k + 1:]
+
+
+def _check_pairs(dialect, pairs, expected, what, exact, fails, shown):
+    """every written (column, operand) pair must denote the value supplied for that column"""
+    seen = {}
+    for col, u in pairs:
+        if col not in expected:
+            if exact:
+                fails.append(('alignment', '%s: %s mentions column %r which the operation did not address; %s' % (dialect, what, col, shown)))
+            continue
+        seen[col] = seen.get(col, 0) + 1
+        why = L.denotes(dialect, u, expected[col])
+        if why is not None:
+            fails.append(('alignment', '%s: %s: column %r was given %r but %s; %s'
+                          % (dialect, what, col, expected[col], why.replace('the bound argument', 'its placeholder receives')
+                             if u.kind == 'param' else 'its operand ' + why, shown)))
+    if exact:
+        for col in expected:
+            if seen.get(col, 0) != 1:
+                fails.append(('alignment', '%s: %s: column %r (value %r) appears %d times; %s'
+                              % (dialect, what, col, expected[col], seen.get(col, 0), shown)))
+
+
+def _analyse_hist_statement(dialect, verb, sql, args, spec, fails):
+    """spec: {'insert': {col: v}, 'exact': bool} | {'set': {...}, 'set_may_skip': {...}, 'where': {...}} | {'where': {...}}"""
+    style = L.NATIVE_STYLE[dialect]
+    shown = 'SQL %s with arguments %s' % (_short(sql, 400), _short(args, 300))
+    try:
+        toks = L.bind(dialect, style, sql, args)
+    except L.DriverError as e:
+        fails.append(('driver', '%s: the driver cannot bind the statement: %s; %s' % (dialect, e, shown)))
+        return
+    if any(t.kind in ('bad', 'comment') for t in toks):
+        fails.append(('structure', '%s: the statement does not lex cleanly; %s' % (dialect, shown)))
+        return
+    if verb == 'INSERT':
+        pairs = _insert_pairs(dialect, toks)
+        if isinstance(pairs, str):
+            fails.append(('structure', '%s: INSERT statement is %s; %s' % (dialect, pairs, shown)))
+            return
+        _check_pairs(dialect, pairs, spec['insert'], 'INSERT', spec['exact'], fails, shown)
+    elif verb == 'UPDATE':
+        k = next((i for i, t in enumerate(toks) if t.kind == 'word' and t.text == 'WHERE'), len(toks))
+        set_pairs = _pairs(dialect, toks[:k])
+        expected = dict(spec['set'])
+        # an attribute assigned the value it already has need not be written
+        for col, v in spec['set_may_skip'].items():
+            if col not in [c for c, u in set_pairs]:
+                expected.pop(col, None)
+        _check_pairs(dialect, set_pairs, expected, 'UPDATE ... SET', True, fails, shown)
+        _check_pairs(dialect, _pairs(dialect, toks[k:]), spec['where'], 'UPDATE ... WHERE', False, fails, shown)
+        if HIST_COLS['id'] not in [c for c, u in _pairs(dialect, toks[k:])]:
+            fails.append(('alignment', '%s: UPDATE has no condition on the primary key; %s' % (dialect, shown)))
+    else:
+        where = _pairs(dialect, _hist_where(toks))
+        _check_pairs(dialect, where, spec['where'], verb + ' ... WHERE', spec.get('exact', False), fails, shown)
+
+
+def judge_history(case):
+    """-> (status, fails, info)"""
+    from pony.orm import db_session, flush, rollback, commit
+    from pony.orm.core import MultipleObjectsFoundError
+    dialect = case['dialect']
+    live = dialect == 'sqlite'
+    log = []
+    fails = []
+    info = {'ops': len(case['ops'])}
+    db, P, R = history_db(dialect, log)
+    model_p, model_r = {}, {}           # id -> {attr: value}
+    objs = {}                           # stub dialects: objects of the single session
+
+    def stmts_since(mark, verb):
+        return [(s, a) for (s, a) in log[mark:] if s.lstrip().split(None, 1)[0].upper() == verb]
+
+    def col_map(d):
+        return {HIST_COLS[k]: v for k, v in d.items()}
+
+    def run_op(op):
+        kind = op[0]
+        mark = len(log)
+        if kind == 'insert':
+            kw = [(c, dec(v)) for c, v in op[2]]
+            d = dict(kw)
+            if d['id'] in model_r:
+                return
+            if op[1]:
+                db.insert(HIST_R_TABLE, op[1], **dict(kw))
+            else:
+                db.insert(HIST_R_TABLE, **dict(kw))
+            model_r[d['id']] = dict({c: None for c in HIST_R_COLS}, **d)
+            st = stmts_since(mark, 'INSERT')
+            if len(st) != 1:
+                fails.append(('structure', '%s: db.insert sent %d INSERT statements' % (dialect, len(st))))
+                return
+            _analyse_hist_statement(dialect, 'INSERT', st[0][0], st[0][1], {'insert': d, 'exact': True}, fails)
+        elif kind == 'new':
+            kw = [(c, dec(v)) for c, v in op[1]]
+            d = dict(kw)
+            if d['id'] in model_p:
+                return
+            o = P(**dict(kw))
+            flush()
+            objs[d['id']] = o
+            model_p[d['id']] = dict(HIST_P_DEFAULT, **d)
+            st = stmts_since(mark, 'INSERT')
+            if len(st) != 1:
+                fails.append(('structure', '%s: creating one object sent %d INSERT statements' % (dialect, len(st))))
+                return
+            _analyse_hist_statement(dialect, 'INSERT', st[0][0], st[0][1], {'insert': col_map(d), 'exact': False}, fails)
+        elif kind in ('set', 'delete'):
+            if not model_p:
+                return
+            pk = sorted(model_p)[op[1] % len(model_p)]
+            o = P[pk] if live else objs[pk]
+            before = dict(model_p[pk])
+            reads = {}
+            for a in (op[2] if live else []):     # without a server an attribute left to its default cannot be loaded
+                got = getattr(o, a)
+                reads[a] = before[a]
+                if live and got != before[a]:
+                    fails.append(('live', 'sqlite: P[%d].%s reads %r, the history stored %r' % (pk, a, got, before[a])))
+            mark = len(log)
+            if kind == 'set':
+                kw = [(c, dec(v)) for c, v in op[3]]
+                if op[4] == 'set':
+                    o.set(**dict(kw))
+                else:
+                    for c, v in kw:
+                        setattr(o, c, v)
+                flush()
+                model_p[pk].update(dict(kw))
+                changed = {c: v for c, v in dict(kw).items() if v != before[c]}
+                same = {c: v for c, v in dict(kw).items() if v == before[c]}
+                st = stmts_since(mark, 'UPDATE')
+                if not changed and not st:
+                    return
+                if len(st) != 1:
+                    fails.append(('structure', '%s: updating %r of P[%d] sent %d UPDATE statements' % (dialect, sorted(changed), pk, len(st))))
+                    return
+                where = col_map(dict(before))
+                _analyse_hist_statement(dialect, 'UPDATE', st[0][0], st[0][1],
+                                        {'set': col_map(dict(kw)), 'set_may_skip': col_map(same), 'where': where}, fails)
+            else:
+                o.delete()
+                flush()
+                del model_p[pk]
+                objs.pop(pk, None)
+                st = stmts_since(mark, 'DELETE')
+                if len(st) != 1:
+                    fails.append(('structure', '%s: deleting P[%d] sent %d DELETE statements' % (dialect, pk, len(st))))
+                    return
+                _analyse_hist_statement(dialect, 'DELETE', st[0][0], st[0][1], {'where': col_map(before)}, fails)
+        elif kind in ('get', 'exists'):
+            kw = [(c, dec(v)) for c, v in op[1]]
+            d = dict(kw)
+            matches = sorted(pk for pk, row in model_p.items() if all(row[c] == v for c, v in d.items()))
+            try:
+                got = P.get(**dict(kw)) if kind == 'get' else P.exists(**dict(kw))
+            except MultipleObjectsFoundError:
+                got = 'multiple'
+            st = stmts_since(mark, 'SELECT')
+            for s, a in st:
+                _analyse_hist_statement(dialect, 'SELECT', s, a, {'where': col_map(d), 'exact': True}, fails)
+            if live:
+                if kind == 'exists':
+                    want = bool(matches)
+                    res = got
+                else:
+                    want = None if not matches else (matches[0] if len(matches) == 1 else 'multiple')
+                    res = got if got in (None, 'multiple') else got.id
+                if res != want:
+                    fails.append(('live', 'sqlite: P.%s(%s) answered %r, the rows stored by the history give %r (rows: %s)'
+                                  % (kind, ', '.join('%s=%r' % cv for cv in kw), res, want, _short(model_p, 400))))
+        else:
+            raise ValueError(kind)
+
+    def read_back():
+        con = db.get_connection()
+        got_p = {r[0]: dict(zip(['id', 'name', 'note', 'tag', 'n'], r)) for r in con.execute(
+            'SELECT %s FROM %s' % (', '.join(_q(HIST_COLS[a]) for a in ['id', 'name', 'note', 'tag', 'n']), _q(HIST_P_TABLE)))}
+        got_r = {r[0]: dict(zip(HIST_R_COLS, r)) for r in con.execute(
+            'SELECT %s FROM %s' % (', '.join(_q(c) for c in HIST_R_COLS), _q(HIST_R_TABLE)))}
+        return got_p, got_r
+
+    try:
+        if live:
+            for k, op in enumerate(case['ops']):
+                try:
+                    with db_session:
+                        run_op(op)
+                    with db_session:
+                        got_p, got_r = read_back()
+                except Exception as e:
+                    fails.append(('crash', 'sqlite: operation #%d %s of the history raised %s(%s)'
+                                  % (k + 1, _short(_op_show(op), 300), type(e).__name__, _short(str(e), 200))))
+                    break
+                if got_p != model_p or got_r != model_r:
+                    bad_r = {i: (got_r.get(i), model_r.get(i)) for i in set(got_r) | set(model_r) if got_r.get(i) != model_r.get(i)}
+                    bad_p = {i: (got_p.get(i), model_p.get(i)) for i in set(got_p) | set(model_p) if got_p.get(i) != model_p.get(i)}
+                    fails.append(('live', 'sqlite: after operation #%d %s of the history %s the database holds (row: stored, supplied) %s'
+                                  % (k + 1, _short(_op_show(op), 300), _short([_op_show(o) for o in case['ops'][:k]], 700),
+                                     _short(dict(raw=bad_r, P=bad_p), 700))))
+                    break
+                if fails:
+                    break
+        else:
+            # no server: the lookups (which would find nothing and make Pony doubt its cached objects) run afterwards in a
+            # session of their own; only their SQL text and arguments are judged
+            writes = [(k, op) for k, op in enumerate(case['ops']) if op[0] not in ('get', 'exists')]
+            lookups = [(k, op) for k, op in enumerate(case['ops']) if op[0] in ('get', 'exists')]
+            for group in (writes, lookups):
+                with db_session:
+                    try:
+                        for k, op in group:
+                            try:
+                                run_op(op)
+                            except Exception as e:
+                                fails.append(('crash', '%s: operation #%d %s of the history raised %s(%s)'
+                                              % (dialect, k + 1, _short(_op_show(op), 300), type(e).__name__,
+                                                 _short(str(e), 200))))
+                                break
+                            if fails:
+                                break
+                    finally:
+                        rollback()
+    finally:
+        db.disconnect()
+    return 'ok', fails, info
+
+
+def _op_show(op):
+    kind = op[0]
+    kv = lambda pairs: ', '.join('%s=%r' % (c, dec(v)) for c, v in pairs)
+    if kind == 'insert':
+        return "db.insert(%r, %s%s)" % (HIST_R_TABLE, 'returning=%r, ' % op[1] if op[1] else '', kv(op[2]))
+    if kind == 'new':
+        return 'P(%s)' % kv(op[1])
+    if kind == 'set':
+        return 'P#%d: read %s; %s' % (op[1], op[2], ('set(%s)' % kv(op[3])) if op[4] == 'set' else
+                                      '; '.join('.%s = %r' % (c, dec(v)) for c, v in op[3]))
+    if kind == 'delete':
+        return 'P#%d: read %s; delete()' % (op[1], op[2])
+    return 'P.%s(%s)' % (kind, kv(op[1]))
+
+
+def history_values(case):
+    out = []
+    for op in case['ops']:
+        for part in op[1:]:
+            if isinstance(part, list):
+                for x in part:
+                    if isinstance(x, list) and len(x) == 2 and isinstance(x[1], dict):
+                        out.append(dec(x[1]))
+    return out
+
+
+def history_reorders(case):
+    """does the history address one column set in two different keyword orders with the same kind of operation?"""
+    seen = {}
+    for op in case['ops']:
+        pairs = op[2] if op[0] == 'insert' else op[3] if op[0] == 'set' else op[1] if op[0] in ('new', 'get', 'exists') else None
+        if pairs is None:
+            continue
+        cols = tuple(c for c, v in pairs)
+        key = (op[0] if op[0] not in ('get', 'exists') else 'find', tuple(sorted(cols)))
+        if key in seen and cols not in seen[key]:
+            return True
+        seen.setdefault(key, set()).add(cols)
+    return False
